@@ -41,11 +41,16 @@ type c24Op struct {
 	Var  int    `json:"v,omitempty"` // handshake: version choice; auth: key choice
 	Body int    `json:"b,omitempty"` // 0 well-formed 1 scalar 2 missing(+EOF) 3 wrong field types 4 extra Command/Seq keys (smuggled header)
 	Smug string `json:"s,omitempty"` // smuggled command for Body 4
+	Q    int    `json:"q,omitempty"` // >0: the request carries the special Seq c24SpecialSeqs[Q-1]
 }
 
 type c24Case struct {
 	Key string  `json:"key"`
 	Enc bool    `json:"enc,omitempty"` // the agent's Serf has a keyring (key commands really work)
+	// SeqBase: request i carries Seq SeqBase+10+2i (the client picks sequence
+	// numbers freely; 0, the 32-bit and the sign boundary and the top of the
+	// range are the values an implementation might treat specially)
+	SeqBase uint64 `json:"seqbase,omitempty"`
 	Ops []c24Op `json:"ops"`
 }
 
@@ -112,6 +117,11 @@ func c24AuthKey(key string, v int) string {
 
 const c24KeyVariants = 16
 
+var c24SpecialSeqs = []uint64{0, 1, 1<<64 - 1, 1 << 32, 1 << 63}
+
+// with base 2^64-10 the first request carries Seq 0 (the sum wraps)
+var c24SeqBases = []uint64{0, 0, 0, 1<<64 - 10, 1<<64 - 9, 1<<32 - 16, 1<<63 - 16, 1<<64 - 80}
+
 func c24SwapCase(s string) string {
 	b := []byte(s)
 	for i, c := range b {
@@ -142,6 +152,7 @@ func genC24(t *rapid.T) c24Case {
 	var c c24Case
 	c.Key = rapid.SampledFrom(c24Keys).Draw(t, "key")
 	c.Enc = rapid.IntRange(0, 2).Draw(t, "enc") == 0
+	c.SeqBase = rapid.SampledFrom(c24SeqBases).Draw(t, "seqbase")
 	n := rapid.IntRange(3, 24).Draw(t, "n")
 	// the generator mirrors the expected connection state only to bias the
 	// draw towards sequences that get somewhere; the body never trusts it
@@ -182,6 +193,9 @@ func genC24(t *rapid.T) c24Case {
 			}
 		}
 		op.Body = rapid.SampledFrom([]int{0, 0, 0, 0, 0, 0, 0, 0, 0, 0, 0, 0, 0, 0, 0, 0, 0, 0, 0, 0, 0, 0, 0, 0, 0, 1, 2, 3, 4, 4}).Draw(t, "body")
+		if rapid.IntRange(0, 5).Draw(t, "specialseq") == 0 {
+			op.Q = rapid.SampledFrom([]int{1, 1, 1, 2, 3, 4, 5}).Draw(t, "seqchoice")
+		}
 		if op.Body == 4 {
 			op.Smug = rapid.SampledFrom([]string{"leave", "leave", "members", "stats", "tags", "event"}).Draw(t, "smug")
 		}
@@ -271,6 +285,9 @@ type c24Session struct {
 	sent   []*c24Sent
 	all    []*c24Conn
 	ghosts map[string]bool
+
+	seqBase uint64
+	usedSeq map[uint64]bool
 }
 
 func (s *c24Session) gateClosed(cn *c24Conn) bool {
@@ -287,7 +304,21 @@ func c24StateChanging(cmd string) bool {
 
 // c24Request builds the values to write for an op.
 func (s *c24Session) request(i int, op c24Op) (vals []any, snt *c24Sent) {
-	seq := uint64(10 + 2*i)
+	// Sequence numbers stay unique within the session: the agent answers a
+	// rejected command that has a body twice with the same Seq (it takes the
+	// unread body for one more request of the same kind), so a Seq used twice
+	// could pair a request with a stale reply.
+	seq := s.seqBase + uint64(10+2*i)
+	if op.Q > 0 {
+		if sp := c24SpecialSeqs[(op.Q-1)%len(c24SpecialSeqs)]; !s.usedSeq[sp] && !s.usedSeq[sp+1] {
+			seq = sp
+		}
+	}
+	for s.usedSeq[seq] || s.usedSeq[seq+1] {
+		seq ^= 1 << 40
+		seq += 2
+	}
+	s.usedSeq[seq], s.usedSeq[seq+1] = true, true
 	snt = &c24Sent{idx: i, op: op, seq: seq}
 	var body map[string]any
 	switch op.Cmd {
@@ -479,7 +510,7 @@ func bodyC24(c c24Case, x *vkit.Ctx) {
 	defer r.close()
 	mon := vkit.StartMonitor()
 	defer mon.Stop()
-	s := &c24Session{x: x, key: c.Key, r: r, ghosts: map[string]bool{}}
+	s := &c24Session{x: x, key: c.Key, r: r, ghosts: map[string]bool{}, seqBase: c.SeqBase, usedSeq: map[uint64]bool{}}
 	defer func() {
 		for _, cn := range s.all {
 			cn.c.close()
@@ -740,6 +771,7 @@ func bodyC24(c c24Case, x *vkit.Ctx) {
 				return
 			}
 			effectivePost++
+			x.Label("effective-after-gate:" + kind)
 		}
 	}
 	st := r.agent.Serf().State()
